@@ -18,6 +18,7 @@ class Path(object):
         self.node = None
         self.in_handler = []  # exception types of enclosing handlers the path went through
         self.calls = []      # expression statements (calls) executed on the path, substituted
+        self.stores = []     # (target expression, value expression) of assignments to attributes / subscripts, substituted
 
     def copy(self):
         q = Path()
@@ -25,6 +26,7 @@ class Path(object):
         q.env = dict(self.env)
         q.in_handler = list(self.in_handler)
         q.calls = list(self.calls)
+        q.stores = list(self.stores)
         return q
 
 
@@ -97,6 +99,8 @@ def _stmt(st, live, out):
                     for i, a in enumerate(t.elts):
                         p.env[a.id] = ast.Subscript(value=_fcopy(v), slice=ast.Constant(value=i), ctx=ast.Load())
                 else:
+                    if isinstance(t, (ast.Attribute, ast.Subscript)):
+                        p.stores.append((subst(t, p.env), v))
                     for x in ast.walk(t):
                         if isinstance(x, ast.Name) and isinstance(x.ctx, ast.Store):
                             p.env.pop(x.id, None)
